@@ -168,6 +168,10 @@ type confStats struct {
 	Agree    int
 	Disagree map[string]int
 	Examples []string
+	// observations (status, branch --list, log) against the model's transcriptions of these commands
+	ObsEdges    int
+	ObsAgree    int
+	ObsDisagree map[string]int
 }
 
 // normalise a JSON-decoded event from TLC into a harness event (numbers, id mapping).
@@ -400,6 +404,9 @@ func tourWalk(c *Chunk, r *Runner, n *tourNode, line int, st M, parentStep int, 
 	}
 	if n.exp != nil {
 		compareModel(cs, n.exp, step, post, c.Tour.Conc, c.T, ev)
+		if obs, ok := c.Lines[postLine-1]["obs"].(M); ok {
+			compareModelObs(cs, n.exp, obs, commits)
+		}
 	}
 	if step["res"] == "crash" || step["res"] == "hang" || !repoUsable(post) {
 		return
@@ -421,6 +428,83 @@ func tourWalk(c *Chunk, r *Runner, n *tourNode, line int, st M, parentStep int, 
 		tourWalk(c, r2, ch, postLine, post, sl, commits, contents, cs)
 		os.RemoveAll(nb)
 	}
+}
+
+// compareModelObs: what status, branch --list and log printed against what the model's transcriptions of these commands
+// (StatusImpl, BranchListObs, LogObs in Goit.tla) say they print. Information (MODEL-DRIFT), never a verdict.
+func compareModelObs(cs *confStats, exp M, obs M, commits []string) {
+	var diffs []string
+	setOf := func(v any, f func(M) string) map[string]bool {
+		out := map[string]bool{}
+		l, _ := v.([]any)
+		for _, x := range l {
+			switch y := x.(type) {
+			case M:
+				out[f(y)] = true
+			case string:
+				out[y] = true
+			}
+		}
+		return out
+	}
+	cp := func(m M) string { return fmt.Sprint(m["c"], " ", m["p"]) }
+	if es, ok := exp["status"].(M); ok {
+		if rs, ok := obs["status"].(M); ok && rs["res"] == "ok" {
+			for _, k := range []string{"staged", "unstaged", "untracked"} {
+				if !sameSet(setOf(es[k], cp), setOf(rs[k], cp)) {
+					diffs = append(diffs, "status."+k)
+				}
+			}
+		} else if ok {
+			diffs = append(diffs, "status.res")
+		}
+	}
+	if eb, ok := exp["blist"]; ok {
+		if rb, ok := obs["branches"].(M); ok {
+			if !sameSet(setOf(eb, nil), setOf(rb["names"], nil)) {
+				diffs = append(diffs, "branchlist")
+			}
+		}
+	}
+	if el, ok := exp["logd"].([]any); ok {
+		if lg, ok := obs["log"].(M); ok {
+			if d, ok := lg["d"].(M); ok {
+				var got []string
+				if l, ok := d["ents"].([]any); ok {
+					for _, x := range l {
+						if m, ok := x.(M); ok {
+							got = append(got, fmt.Sprint(m["id"]))
+						}
+					}
+				}
+				same := len(got) == len(el)
+				for i := 0; same && i < len(el); i++ {
+					// model commit ids are k1, k2, ...: the n-th successful commit of the path
+					n := 0
+					fmt.Sscanf(fmt.Sprint(el[i]), "k%d", &n)
+					if n < 1 || n > len(commits) || commits[n-1] != got[i] {
+						same = false
+					}
+				}
+				if !same {
+					diffs = append(diffs, "log")
+				}
+			}
+		}
+	}
+	cs.mu.Lock()
+	cs.ObsEdges++
+	if len(diffs) == 0 {
+		cs.ObsAgree++
+	} else {
+		for _, d := range diffs {
+			if cs.ObsDisagree == nil {
+				cs.ObsDisagree = map[string]int{}
+			}
+			cs.ObsDisagree[d]++
+		}
+	}
+	cs.mu.Unlock()
 }
 
 // compareModel: agreement of the real post-state with the model's, on the components where the model is
@@ -481,6 +565,36 @@ func compareModel(cs *confStats, exp M, step M, post M, conc map[string][]byte, 
 	}
 	if toInt(exp["nlog"]) != len(post["hlog"].([]any)) {
 		diffs = append(diffs, "nlog")
+	}
+	// per-branch journals: the same branches have one, with the same number of records and the same last kind
+	if eb, has := exp["blog"]; has {
+		want := map[string]string{}
+		if m, ok := eb.(map[string]any); ok {
+			for b, v := range m {
+				if r, ok := v.(map[string]any); ok {
+					want[b] = fmt.Sprintf("%d/%v", toInt(r["n"]), r["kind"])
+				}
+			}
+		}
+		got := map[string]string{}
+		if m, ok := post["blog"].(M); ok {
+			for b, v := range m {
+				if l, ok := v.([]any); ok && len(l) > 0 {
+					last, _ := l[len(l)-1].(M)
+					got[b] = fmt.Sprintf("%d/%v", len(l), last["kind"])
+				}
+			}
+		}
+		if len(want) != len(got) {
+			diffs = append(diffs, "blog")
+		} else {
+			for b, w := range want {
+				if got[b] != w {
+					diffs = append(diffs, "blog")
+					break
+				}
+			}
+		}
 	}
 	cs.mu.Lock()
 	cs.Edges++
